@@ -70,6 +70,14 @@ fn check_corruption(text: &str, pos: usize, ch: char) -> Option<(String, String)
     }
 }
 
+fn check_after_rejection(text: &str, pos: usize, ch: char, then: &[u8]) -> Option<(String, String)> {
+    let mut chars: Vec<char> = text.chars().collect();
+    chars[pos] = ch;
+    let corrupted: String = chars.into_iter().collect();
+    let _ = guard(|| Base64::decode(corrupted.clone()));
+    check_roundtrip(then).map(|(sig, d)| (format!("{}:after-a-rejected-text", sig), format!("after decode({:?}) was rejected: {}", corrupted, d)))
+}
+
 fn rt_case(ctx: &mut Ctx, kind: &str, input: &[u8]) {
     let mut key = kind.as_bytes().to_vec();
     key.push(0);
@@ -194,6 +202,34 @@ pub fn run(ctx: &mut Ctx) {
             }
         }
     }
+    // 5. a rejected text, then a valid one, decoded by the same thread: a rejection may leave
+    //    nothing behind (every corruption position of every text x 4 characters, then every text)
+    let after: [char; 4] = ['*', ' ', '\n', '\u{0141}'];
+    for t in TEXTS {
+        let enc = reference_encode(t.as_bytes());
+        let n = enc.chars().count();
+        for pos in 0..n {
+            for ch in after {
+                for (vi, v) in TEXTS.iter().enumerate() {
+                    let key = format!("after-rejection\0{}\0{}\0{}\0{}", enc, pos, ch as u32, vi);
+                    if !ctx.begin(key.as_bytes()) {
+                        continue;
+                    }
+                    ctx.nontrivial();
+                    ctx.add("cases_after_rejection", 1);
+                    let case = json!({"kind":"after-rejection","text":enc,"pos":pos,"char":ch as u32,"then":vi});
+                    match check_after_rejection(&enc, pos, ch, v.as_bytes()) {
+                        None => ctx.outcome("ok-after-rejection"),
+                        Some((sig, detail)) => {
+                            ctx.outcome("fail");
+                            ctx.fail(&sig, || case.clone(), detail)
+                        }
+                    }
+                }
+            }
+        }
+    }
+    ctx.bound("after_rejection", json!("every text x every position x {*, space, LF, U+0141} rejected first, then each of the texts round-tripped on the same thread"));
     ctx.bound("corrupt", json!(format!("{} texts x every position x {} non-alphabet characters (all 191 non-alphabet bytes as U+00xx, plus U+0141/U+0176/U+013D)", TEXTS.len(), bad.len())));
 }
 
@@ -205,6 +241,12 @@ pub fn replay(case: &Value) -> Vec<Failure> {
             case["text"].as_str().unwrap_or(""),
             case["pos"].as_u64().unwrap_or(0) as usize,
             char::from_u32(case["char"].as_u64().unwrap_or(0) as u32).unwrap_or('?'),
+        ),
+        Some("after-rejection") => check_after_rejection(
+            case["text"].as_str().unwrap_or(""),
+            case["pos"].as_u64().unwrap_or(0) as usize,
+            char::from_u32(case["char"].as_u64().unwrap_or(0) as u32).unwrap_or('?'),
+            TEXTS[(case["then"].as_u64().unwrap_or(0) as usize) % TEXTS.len()].as_bytes(),
         ),
         _ => Some(("C18:bad-replay-file".to_string(), "unknown kind".to_string())),
     };
